@@ -102,6 +102,7 @@ type lifecycleStep struct {
 func verifyLifecycle(t *rapid.T, p protocol.Protocol, ns string, steps []lifecycleStep) {
 	stack := newStack(p)
 	rm, rm2 := &protocol.ResolutionModel{}, &protocol.ResolutionModel{}
+	var wantOrigin interface{}
 	suffix := ""
 	for i, s := range steps {
 		op, err := stack.Parser.Parse(ns, s.req)
@@ -188,6 +189,14 @@ func verifyLifecycle(t *rapid.T, p protocol.Protocol, ns string, steps []lifecyc
 		}
 		if rm.Deactivated != (s.typ == "deactivate") {
 			t.Fatalf("C08 step %d: deactivated flag = %v", i, rm.Deactivated)
+		}
+		// the anchor origin is the one the last create / recover asked for (none, if it asked for none); updates and the
+		// deactivate keep it
+		if s.typ == "create" || s.typ == "recover" {
+			wantOrigin = s.origin
+		}
+		if originCanon(rm.AnchorOrigin) != originCanon(wantOrigin) {
+			t.Fatalf("C08 step %d (%s): state carries anchor origin %s, the caller asked for %s", i, s.typ, originCanon(rm.AnchorOrigin), originCanon(wantOrigin))
 		}
 	}
 }
